@@ -5,3 +5,4 @@ import AvroModel.Schema
 import AvroModel.Encode
 import AvroModel.Decode
 import AvroModel.Conforms
+import AvroModel.Alloc
